@@ -137,6 +137,13 @@ def phi(name, n):
     return ast.Name(id='%s@phi%d' % (name, n), ctx=ast.Load())
 
 
+def _same_self(bind_self, call):
+    """the callee's ``self`` is the caller's: self.m(...) or Class.m(self, ...)"""
+    if isinstance(bind_self, ast.Name) and bind_self.id == 'self':
+        return True
+    return bind_self is None and bool(call.args) and isinstance(call.args[0], ast.Name) and call.args[0].id == 'self'
+
+
 def is_boolean_expr(e):
     """an expression whose value can only be True / False"""
     if isinstance(e, ast.Constant):
@@ -177,6 +184,7 @@ class Walker:
         self.fold = fold or (lambda e: None)     # expr -> True/False/None (constant guards)
         self._phi = itertools.count()
         self.cls = None
+        self.self_cls = None
         self.items = {}                 # loop number -> iterable expression
         self.tag = tag                  # call expr -> short label: result becomes a unique symbol
         self.calltab = {}               # symbol id -> tagged call expression
@@ -191,6 +199,7 @@ class Walker:
         """path summaries of ``func`` (FunctionDef / Lambda).  ``bind`` maps
         parameter names to argument expressions (used when inlining)."""
         self.cls = cls if cls is not None else self.cls
+        self.self_cls = self.cls        # the class of the object ``self`` is (inlining a base method keeps it)
         st = Path()
         if bind:
             st.env.update(bind)
@@ -671,14 +680,16 @@ class Walker:
         argmap = self.bind_args(func, call, st, d, bind_self)
         if argmap is None:
             return None
-        saved_cls = self.cls
+        saved_cls, saved_self = self.cls, getattr(self, 'self_cls', None)
         self.cls = owner if owner is not None else self.cls
+        if not _same_self(bind_self, call):
+            self.self_cls = self.cls
         sub = Path()
         sub.env = argmap
         try:
             res = self.block(func.body, sub, d + 1)
         finally:
-            self.cls = saved_cls
+            self.cls, self.self_cls = saved_cls, saved_self
         out = []
         for p, status in res:
             q = st.clone()
@@ -939,6 +950,14 @@ class _Ev:
             return copy.deepcopy(self.st.heap[k])
         if k in self.w.const_heap and isinstance(e.ctx, ast.Load):
             return copy.deepcopy(self.w.const_heap[k])
+        # a class-level constant that no instance ever overrides
+        cc = getattr(self.w, 'class_constant', None)
+        scls = getattr(self.w, 'self_cls', None) or self.w.cls
+        if cc is not None and scls is not None and isinstance(new.value, ast.Name) and new.value.id == 'self' and isinstance(e.ctx, ast.Load) \
+                and hasattr(scls, 'node'):
+            c = cc(scls, e.attr)
+            if c is not None:
+                return copy.deepcopy(c)
         return new
 
     def v_Subscript(self, e, cond):
@@ -1101,13 +1120,15 @@ class _Ev:
                 fdef, bind_self, owner = r
                 argmap = self.w.bind_args(fdef, e, self.st, self.d, bind_self)
                 if argmap is not None and isinstance(fdef, ast.FunctionDef):
-                    saved = self.w.cls
+                    saved, saved_self = self.w.cls, getattr(self.w, 'self_cls', None)
                     self.w.cls = owner if owner is not None else saved
+                    if not _same_self(bind_self, new):
+                        self.w.self_cls = self.w.cls
                     sub = Path(); sub.env = argmap
                     try:
                         res = self.w.block(fdef.body, sub, self.d + 1)
                     finally:
-                        self.w.cls = saved
+                        self.w.cls, self.w.self_cls = saved, saved_self
                     if len(res) == 1 and (res[0][1] is None or res[0][1][0] == 'return') and not res[0][0].guards:
                         self.st.effects.extend(res[0][0].effects)
                         self.st.heap.clear()
